@@ -151,6 +151,12 @@ def drvStep (st : Drv) (toks : List String) : Drv × String :=
   | ["save"] => ({ st with saved := st.cur }, "ok")
   | ["restore"] => ({ st with cur := st.saved }, "ok")
   | ["obs"] => (st, obsDS st.cur)
+  | ["abortfault", t] =>
+    match t.toNat?, st.cur with
+    | some t, .file s =>
+      let r := doAbortFault s t
+      ({ st with cur := .file r.1 }, outStr r.2.2 ++ " " ++ dataClass s.pos r.2.1)
+    | _, _ => (st, "bad-op")
   | ["finishcb", t] =>
     match t.toNat? with
     | none => (st, "bad-op")
